@@ -39,6 +39,26 @@ CHECKS = {
              "theorem about the emulator); metadata completeness is checked on the files, not proved",
         technique="Lean 4 invariant proof (clock order + marker balance) over the buffer model + differential run + ovniemu acceptance",
         design="DESIGN.md §5 C02"),
+    "C07": dict(
+        text=("Theorems (Props/C07.lean, 12) over a transcription of body.c/task.c (one branch per C guard, in order) and of the "
+              "nOS-V / Nanos6 update_task layer, against a life-cycle specification written independently: the model accepts a "
+              "history of task API calls IFF every step is legal in the specification (created -> running -> (paused <-> "
+              "running)* -> dead, top of stack only, nesting only over a paused body unless relaxed, parallel tasks with several "
+              "bodies that cannot pause, resurrection only with the flag) for any number of tasks, bodies, stacks and all flag "
+              "sets (task_accept_iff); a body is on at most one stack exactly while running or paused (body_unique_thread, "
+              "running_body_has_thread, nested_over_paused); the event-level version for both models including body-id rules, "
+              "task id != 0 and the ST_TASK_BODY push/pop (event_accept_iff, event_body_unique_thread); while a body runs the "
+              "thread's task channels are (task id, type gid, body id, app id, rank+1), null otherwise (task_view, "
+              "task_view_nosv); lint acceptance (lint_accept_iff, lint_all_ended); no table event pushes ST_TASK_BODY "
+              "(table_events_clean, decide over regenerated tables). Tie: the real task.c/body.c in an ASan/UBSan harness "
+              "(struct body dumped after every op) vs the Lean model on bounded-exhaustive (state, op) pairs and random "
+              "histories; `ovniemu -l` on random nOS-V/Nanos6 histories with single illegal mutations: verdict, refused-event "
+              "position and thread.prv types 10,11,12,14,15 / 35,36,38 vs the model, a documentation-derived reference "
+              "automaton and a PRV oracle. Found and repaired: Nanos6 refused a legal nested execute (29aa1a0)."),
+        note=TB + "; uthash tables as finite maps; label hash computed in Python and cross-checked with the harness; one model "
+             "instance per process; e2e keeps threads running (tracking muxes are C06's subject); ST_TASK_BODY values hand-copied",
+        technique="Lean 4 simulation (both directions) between the task.c model and an independent life-cycle spec + differential runs",
+        design="DESIGN.md §5 C07"),
     "C08": dict(
         text=("Theorems (Props/C08.lean, 21) over the transcription of chan_push/chan_pop/chan_flush: a history of enter/leave "
               "events on a channel is accepted by the channel machinery IFF it is properly nested (leave matches the "
